@@ -136,6 +136,16 @@ add("C17", "model_checking",
     "positive in that person's row.",
     "bounded exhaustive sweep of the input grid with a safety invariant checked in every state; non-vacuity measured", "2/C17")
 
+add("C16", "model_checking",
+    "Exhaustive corner stages (every age 18-100 as worker / retiree / without income, children aged 0-24, 0-10 children for couples and single "
+    "parents, incomes 0..1e7, wealth 0..1e8, negative rental income, unemployment and parental leave with extreme previous incomes), the "
+    "library households and their single-attribute deviations, at the first and last day of change-date classes >= 2015, all nodes computed; "
+    "invariants on every state: every float node finite, every default target >= 0, post-priority benefits <= pre-priority entitlements, "
+    "employee contributions within rate x ceiling of the date, Elterngeld <= maximum plus bonuses, Kindergeld <= claims x highest rate.",
+    "Caps are computed from the parameters of the date as stated in the evidence assumptions (coarse for health/care insurance, where C19 checks "
+    "the exact shape).",
+    "bounded exhaustive enumeration of corner populations with invariants checked in every state", "2/C16")
+
 NOT_APPLICABLE = []
 
 
